@@ -62,7 +62,8 @@ CONSTANTS Writers, Streamers, Keys,
           Window_CloseWithOpenWriters, \* DBClose allowed while writers are still open
           WKeys,          \* [Writers -> SUBSET Keys]  channels of each writer's frames
           Auth,           \* [Writers -> [Keys -> Nat]]
-          Subs,           \* subscriptions the environment may choose (SUBSET Keys)
+          OpenSubs,       \* subscriptions the environment may open a streamer with
+          Subs,           \* subscriptions the environment may re-subscribe to
           CloseModes,     \* subset of {"graceful", "cancel"}
           LateOpen        \* writers opened during the run (the others are open at Init)
 
@@ -217,8 +218,9 @@ StreamerOpen(s, K) ==
   /\ subHist' = [subHist EXCEPT ![s] = <<K>>]
   /\ UNCHANGED <<wvars, dvars, held, out, req, closing, nresub, dbClosed, written, got, owed, emptied>>
 
+\* (an orphaned streamer - see DBClose - still hands over the frame it was holding)
 StreamerFilterSend(s) ==
-  /\ sst[s] = "Running" /\ held[s] # NoFrame
+  /\ sst[s] \in {"Running", "Orphaned"} /\ held[s] # NoFrame
   /\ LET f == held[s]
          ks == f.ks \cap keys[s]
      IN IF ks = {}
@@ -279,18 +281,18 @@ DBClose ==
   /\ dcur' = NoFrame /\ didx' = 1 /\ conns' = <<>>
   /\ sst' = [s \in Streamers |->
         IF sst[s] \in {"Connecting", "Running", "Disconnecting"} THEN "Orphaned" ELSE sst[s]]
-  /\ held' = [s \in Streamers |-> IF sst'[s] = "Orphaned" THEN NoFrame ELSE held[s]]
-  /\ UNCHANGED <<inlet, wvars, keys, out, req, closing, nresub, gvars>>
+  /\ UNCHANGED <<inlet, wvars, keys, held, out, req, closing, nresub, gvars>>
 
 ---------------------------------------------------------------------------
 Terminated ==
   /\ dbClosed
   /\ \A w \in Writers : wstate[w] # "open" \/ (wnext[w] > MaxSeq /\ wq[w] = <<>>)
-  /\ \A s \in Streamers : sst[s] \in {"Init", "Closed", "Orphaned"} /\ out[s] = <<>>
+  /\ \A s \in Streamers : sst[s] \in {"Init", "Closed", "Orphaned"} /\ out[s] = <<>> /\ held[s] = NoFrame
 
 EnvNext ==
   \/ \E w \in Writers : WriterOpen(w) \/ WriteCall(w) \/ WriterClose(w)
-  \/ \E s \in Streamers : \E K \in Subs : StreamerOpen(s, K) \/ ResubCall(s, K)
+  \/ \E s \in Streamers : \E K \in OpenSubs : StreamerOpen(s, K)
+  \/ \E s \in Streamers : \E K \in Subs : ResubCall(s, K)
   \/ \E s \in Streamers : \E m \in CloseModes : StreamerClose(s, m)
   \/ DBClose
 SysNext ==
